@@ -87,7 +87,7 @@ def run(rep, tier, seed, b):
             rep.disagreements.append({'op': 'stress run', 'input': {'table': job['table'], 'n_calls': len(job['calls'])}, 'impl': [str(serial)[:300], str(conc)[:300]]})
             continue
         for i, c in enumerate(job['calls']):
-            if serial[i] != model[i]:
+            if {k: v for k, v in serial[i].items() if k != 'msg'} != model[i]:
                 rep.disagreements.append({'op': 'serial call', 'input': {'table': job['table'], 'call': c}, 'impl': serial[i], 'model': model[i]})
             if conc['results'][i] != serial[i]:
                 rep.oracle_failures.append({'clause': 'a call running concurrently with others returns what it returns when run alone',
